@@ -77,6 +77,17 @@ func (c *StepCtl) CrashAt(name, prefix, kind string, nth int, onCrash func()) {
 	c.mu.Unlock()
 }
 
+// DisarmAll cancels every crash that has not happened yet (before a run's final observations).
+func (c *StepCtl) DisarmAll() {
+	c.mu.Lock()
+	for k, s := range c.crashAt {
+		if !s.fired {
+			delete(c.crashAt, k)
+		}
+	}
+	c.mu.Unlock()
+}
+
 // Fired reports whether the named crash happened.
 func (c *StepCtl) Fired(name string) bool {
 	c.mu.Lock()
